@@ -75,6 +75,8 @@ def h1(x): return x + 1
 def h2(a, b): return a * 2 - b
 def ident(x): return x
 def h3(x): return h1(x) * 2 + h2(x, 1)
+def hkw(x): return h2(b=x, a=G1)
+def hkw2(x, y): return ident(x) + hkw(y) + h2(b=1, a=y)
 def hsel(s, k): return s.Where(lambda v: v > k).Count()
 def hshadow(x): return h1((lambda x: x + 100)(x)) + x
 
@@ -92,7 +94,8 @@ def not_inlinable(x):
 
 # Tight / Tighter inherit their constants from Cfg: an inherited class constant is a class constant
 CAPTURED_INTS = ("G1", "G2", "c1", "c2", "Cfg.threshold", "Cfg.Inner.deep", "Tight.threshold", "Tighter.Inner.deep", "Tighter.extra")
-HELPERS = (("h1", 1), ("h2", 2), ("ident", 1), ("h3", 1), ("hl", 1), ("hshadow", 1), ("not_inlinable", 1))
+# hkw / hkw2: a keyword call (not inlinable positionally) INSIDE a helper that is inlined, its arguments mentioning the helper's parameter
+HELPERS = (("h1", 1), ("h2", 2), ("ident", 1), ("h3", 1), ("hl", 1), ("hshadow", 1), ("not_inlinable", 1), ("hkw", 1), ("hkw2", 2))
 # binder names that collide with captured names.  Names that occur FREE in a helper body (h1, h2 in h3; G2 in hl)
 # or are bound inside one (v in hsel) are kept out: inlining is not capture-avoiding (known finding, see below)
 SHADOW_NAMES = ("G1", "c1", "ident", "x", "a", "q", "Cfg", "e", "e", "j", "t")
@@ -150,7 +153,19 @@ def gen_body(rng, focus: str = "") -> Tuple[str, set]:
                             f"(lambda {v}: {v} + 1)(e.met)"])
         later = rng.choice(["ident(e).met", "(e, G1)[0].run", "h1(ident(e).met)", "Count(ident(e).nums)"])
         body = rng.choice([f"({inner} + {later}, {body})", f"({body}, {inner}, {later})"])
-    elif extra < 0.56:
+    elif extra < 0.64:
+        # a call that cannot be inlined positionally (keywords) inside something that IS inlined, mentioning its parameter
+        v, w = rng.sample(["q", "a", "x", "t", "k"], 2)
+        arg = rng.choice(["e.met", "e.run + c1", "G1", "Count(e.nums)"])
+        inner = rng.choice([
+            f"(lambda {v}: (lambda {w}: {w} + 1)({w}={v}))({arg})",
+            f"(lambda {v}, {w}: (lambda b, a: a * 3 - b)(a={v}, b={w}))({arg}, c1)",
+            f"(lambda {v}: h2(b={v}, a=1) + (lambda {w}: {w} * 2)({w}={v} + 1))({arg})",
+            f"hkw({arg}) + hkw2({arg}, c2)",
+            f"(lambda {v}: hkw({v}) + {v})({arg})",
+        ])
+        body = f"({body}, {inner})"
+    elif extra < 0.56 + 0.14:
         # a parameter of an enclosing lambda used as a bare name inside a nested lambda, where the module has a
         # global of the same name (e, x, a, q, j, t are all module globals): the parameter must win at every depth
         v, w = rng.sample(["j", "x", "a", "q", "t"], 2)
